@@ -645,6 +645,7 @@ func cmdCheck(args []string) int {
 		"cover_obligations": covers, "cover_confirmed_sat": coversConfirmed,
 		"proved_modulo_abstraction": abstracted, "undecided_new": undecided, "known_findings": known,
 		"solver_time_s": float64(solverMs) / 1000.0, "ledger_present": ledger != nil,
+		"solver_limit_s": timeout, "second_pass_limit_s": timeout * 6, "load_factor_at_start": loadFactor(),
 	}
 	if expl != "" {
 		cov["explanation"] = expl
